@@ -286,6 +286,21 @@ class SolverSpec(corevc.Spec):
             return SV('bool', valid_in(obj.ref, to_term(args[0])))
         if k == 'inputstore' and attr == 'update_input_spec':
             return None
+        if k == 'inputstore' and attr == '__contains__' and len(args) == 1:
+            # InputStore.__contains__: has_option(section, base) of the file - an uninterpreted fact about the file
+            return SV('bool', z3.Function('file_has_option', NAME, z3.BoolSort())(to_term(args[0])))
+        if k == 'inputstore' and attr == '__getitem__' and len(args) == 1:
+            # InputStore.__getitem__ outside a line evaluation (C11 contract): undeclared / missing / rejected / a value
+            kk = to_term(args[0])
+            me = it.ghost['self']
+            s = self.st(it, me)
+            if it.run.branch(z3.Not(s.IM.has[kk]), where=f'iget-undeclared@{node.lineno}'):
+                raise Raised(inputs.MissingInputSpecification(args[0]), node)
+            if it.run.branch(z3.Not(s.C.mem[kk]), where=f'iget-missing@{node.lineno}'):
+                raise Raised(inputs.MissingInput(args[0]), node)
+            if it.run.branch(fresh('iget_invalid', z3.BoolSort()), where=f'iget-invalid@{node.lineno}'):
+                raise Raised(inputs.InvalidInput(args[0], wrap(fresh('text', z3.StringSort()))), node)
+            return wrap(fresh('input_value', VAL))
         if k == 'newform':
             info = obj.info
             if attr == 'inputs' and not args:
@@ -328,6 +343,7 @@ class SolverSpec(corevc.Spec):
         if r.branch(fresh('line_missing_input', z3.BoolSort()), where=f'oracle-mi@{node.lineno}'):
             k = fresh('key', NAME)
             r.fact(z3.And(s.IM.has[k], z3.Not(s.C.mem[k])))
+            it.ghost['oracle_mi'] = k
             raise Raised(inputs.MissingInput(wrap(k)), node)
         if r.branch(fresh('line_missing_spec', z3.BoolSort()), where=f'oracle-mis@{node.lineno}'):
             k = fresh('key', NAME)
@@ -345,6 +361,7 @@ class SolverSpec(corevc.Spec):
             r.fact(z3.And(s.IM.has[k], s.C.mem[k]))
             raise Raised(inputs.InvalidInput(wrap(k), wrap(fresh('text', z3.StringSort()))), node)
         if r.branch(fresh('line_ni', z3.BoolSort()), where=f'oracle-ni@{node.lineno}'):
+            it.ghost['oracle_ni'] = name_of(fobj.ref)
             raise Raised(fields.FieldNotImplemented(wrap(name_of(fobj.ref))), node)
         raise Raised(RuntimeError('any other exception raised by a line definition'), node)
 
@@ -357,6 +374,9 @@ class SolverSpec(corevc.Spec):
         if isinstance(f, SV) and f.kind == 'obj':
             # calling a form class: self._form_map[form_name](solver=self, instance=...)
             return self.new_form(it, f, kwargs, node)
+        if f is isinstance and len(args) == 2 and isinstance(args[0], Opaque) and isinstance(args[1], type):
+            # the class of an object the contract view does not construct: an uninterpreted predicate of the object
+            return SV('bool', z3.Function(f'is_instance_{args[1].__name__}', OBJ, z3.BoolSort())(args[0].ref))
         if isinstance(f, Opaque) and f.kind == 'prompt':
             value = SV('str', fresh('answer', z3.StringSort()))
             supplied = SV('bool', fresh('supplied', z3.BoolSort()))
@@ -422,6 +442,12 @@ def _spec_methods():
     def sym_attr_call(self, it, obj, attr, args, node):
         if attr == 'split' and len(args) == 1 and args[0] == '.' and obj.t.sort() == NAME:
             return (wrap(form_part(obj.t)), wrap(base_part(obj.t)))
+        if obj.t.sort() == OBJ and not args:
+            # a line / input definition taken out of the registered maps
+            if attr == 'name':
+                return wrap(name_of(obj.t))
+            if attr == 'form':
+                return Opaque(z3.Function('form_of_field', OBJ, OBJ)(obj.t), 'form')
         return NotImplemented
 
     def spec_call_hook(self, it, f, args, kwargs, node):
